@@ -17,10 +17,10 @@ def run(tier, deadline):
     # default ./configure builds it (dist: -O2, _FORTIFY_SOURCE=2, the repository's hardening flags)
     envs = {v: dict(os.environ, CAT_LIB=vbuild.build(v)) for v in (("prod",) if tier == "quick" else ("prod", "dist"))}
     M = 8 if tier == "quick" else 12
-    jobs = [["all", str(M), str(i), "16"] for i in range(16)] + [["moves", "200" if tier == "quick" else "400", str(i), "16"] for i in range(16)] + [["far", "8" if tier == "quick" else "24", str(i), "16"] for i in range(16)] + [["bytes", "8" if tier == "quick" else "40", str(i), "4"] for i in range(4)]
+    jobs = [["all", str(M), str(i), "16"] for i in range(16)] + [["moves", "200" if tier == "quick" else "400", str(i), "16"] for i in range(16)] + [["far", "8" if tier == "quick" else "24", str(i), "16"] for i in range(16)] + [["bytes", "8" if tier == "quick" else "40", str(i), "4"] for i in range(4)] + [["low", "0", str(i), "4"] for i in range(4)]
     def mkjobs(tier):
         M = 8 if tier == "quick" else 12
-        jobs = [["all", str(M), str(i), "16"] for i in range(16)] + [["moves", "200" if tier == "quick" else "400", str(i), "16"] for i in range(16)] + [["far", "8" if tier == "quick" else "24", str(i), "16"] for i in range(16)] + [["bytes", "8" if tier == "quick" else "40", str(i), "4"] for i in range(4)]
+        jobs = [["all", str(M), str(i), "16"] for i in range(16)] + [["moves", "200" if tier == "quick" else "400", str(i), "16"] for i in range(16)] + [["far", "8" if tier == "quick" else "24", str(i), "16"] for i in range(16)] + [["bytes", "8" if tier == "quick" else "40", str(i), "4"] for i in range(4)] + [["low", "0", str(i), "4"] for i in range(4)]
         return jobs
     jobs = [("prod", j) for j in jobs] + ([("dist", j) for j in mkjobs("quick")] if tier == "thorough" else [])
     viol = {}; internal = []; tot = {"layouts": 0, "zone_disjoint": 0, "zone_must_report": 0, "zone_either": 0, "dest_unterminated": 0}; timed_out = []
@@ -46,7 +46,7 @@ def run(tier, deadline):
     def confirm(v):
         kv = dict(l.split("=", 1) for l in v.replay_text.strip().splitlines()); return replay(kv, quiet=True) == 1
     cov = {"evaluations": tot["layouts"], "distinct_nontrivial": tot["zone_must_report"] + tot["zone_either"],
-           "rule": "16-/32-bit and wide memory functions with src = dest + every number of bytes (operands not aligned to each other), lengths 1..8 (thorough 40) elements: memmove family = copy through a temporary, memcpy family reports every intersection of the byte ranges; (0) memccpy_s in the same arena with every stop character present in it, one absent, the terminator and two values outside unsigned char whose low byte is present (overlap detection, corruption, stray writes); operands far apart: dest and src in two mappings (k+1) x 4 GiB + r bytes apart, k in {0,1}, both orders, every r within the operand length + 6 elements, every length up to 8 (thorough 24) elements, all 22 entry points: must succeed and store what the same call stores between neighbouring disjoint operands; (1) one arena of M elements over {x, NUL}: all 2^M contents x every dest position and dmax x every src position x every slen, for 22 copy/concatenate/memory entry points in widths 1/2/4; R/W sets computed from the pre-call snapshot; zone oracle: disjoint => behaves as with disjoint buffers; written-intersects-read => overlap error with dest cleared; otherwise either; always: nothing outside dest written, arena never left, success implies the copy-through-temporary result; memmove family exact for every placement; every layout is run with object sizes unknown and with dest size = dmax / src size = rest of the arena; (2) long moves: memmove_s, memmove16_s, memmove32_s, wmemmove_s for every shift of src against dest in [-136,+136] bytes x every length up to the bound x every start alignment, compared with a copy through a temporary over a 4 KiB image; non-trivial = layouts where the dest object touches the elements read",
+           "rule": "16-/32-bit and wide memory functions with src = dest + every number of bytes (operands not aligned to each other), lengths 1..8 (thorough 40) elements: memmove family = copy through a temporary, memcpy family reports every intersection of the byte ranges; (0) memccpy_s in the same arena with every stop character present in it, one absent, the terminator and two values outside unsigned char whose low byte is present (overlap detection, corruption, stray writes); operands at the lowest mappable addresses (vm.mmap_min_addr) with counts of 3..40000 elements whose size in bytes exceeds the address of dest, src at 15 distances around -len..+len: outcome and memory equal to the same call in ordinary memory (memcpy and memmove families); operands far apart: dest and src in two mappings (k+1) x 4 GiB + r bytes apart, k in {0,1}, both orders, every r within the operand length + 6 elements, every length up to 8 (thorough 24) elements, all 22 entry points: must succeed and store what the same call stores between neighbouring disjoint operands; (1) one arena of M elements over {x, NUL}: all 2^M contents x every dest position and dmax x every src position x every slen, for 22 copy/concatenate/memory entry points in widths 1/2/4; R/W sets computed from the pre-call snapshot; zone oracle: disjoint => behaves as with disjoint buffers; written-intersects-read => overlap error with dest cleared; otherwise either; always: nothing outside dest written, arena never left, success implies the copy-through-temporary result; memmove family exact for every placement; every layout is run with object sizes unknown and with dest size = dmax / src size = rest of the arena; (2) long moves: memmove_s, memmove16_s, memmove32_s, wmemmove_s for every shift of src against dest in [-136,+136] bytes x every length up to the bound x every start alignment, compared with a copy through a temporary over a 4 KiB image; non-trivial = layouts where the dest object touches the elements read",
            "samples": ["strncpy_s M=8 content=0b00100101 dest@1 dmax=4 src@0 slen=2", "memmove32_s M=8 dest@2 dmax=5 src@0 slen=4", "wcscat_s M=8 content=0b01011011 dest@0 dmax=6 src@3"],
            "arena_elements": M, "zones": tot, "jobs_timed_out": len(timed_out), "library_builds": sorted(envs)}
     return common.finish("C07", tier, t0, cov, violations, ["identical pointers: unchanged dest string or the reference result both accepted", "memccpy_s: overlap, corruption and stray writes are judged here; what it stores behind the stop character is C06's"], confirm=confirm, exhaustive=not timed_out)
